@@ -28,7 +28,10 @@ ENG = build(SDL, "p13", query_cache_decorator=DictCache())
 @Resolver("Query.e", schema_name="p13c")
 async def re2(p, a, c, i):
     return a.get("i")
-ENG_LRU = build(SDL, "p13c", query_cache_decorator=lru_cache(maxsize=1))
+HANDLES = []
+def _lru1(fn):
+    w = lru_cache(maxsize=1)(fn); HANDLES.append(w); return w
+ENG_LRU = build(SDL, "p13c", query_cache_decorator=_lru1)
 Q = "subscription { tick(n: 1) }"
 
 async def consume(agen):
@@ -88,6 +91,7 @@ def c16(v1: Optional[int], v2: Optional[int], sw: bool) -> bool:
     post: _
     """
     L = miniloop2.MiniLoop
+    for h in HANDLES: h.cache_clear()
     r1 = L().run_until_complete(ENG_LRU.execute(Q2, variables={"v": v1}))
     if sw:
         L().run_until_complete(ENG_LRU.execute("{ a }"))
